@@ -304,7 +304,7 @@ func main() {
 	}
 	for _, fn := range []string{"fileStore.flushPages", "fileStore.update", "fileStore.save", "fileStore.fetch", "fileStore.append", "fileStore.close",
 		"newFileStore", "wal.flush", "wal.read", "WALBatch.replay", "InitStorage", "LRUCache.set", "LRUCache.get",
-		"RelationService.CreateTable", "RelationService.Insert", "RelationService.Update", "RelationService.MarkDeleted",
+		"RelationService.CreateTable", "RelationService.createTable", "RelationService.Insert", "RelationService.Update", "RelationService.MarkDeleted",
 		"RelationService.updatePageTable", "RelationService.StartTxn", "RelationService.EndTxn", "OpenRelation", "CreateDB",
 		"BTree.insert", "BTree.insertLeaf", "BTree.insertInternal", "btreeNode.split", "btreeNode.markDirty"} {
 		if fd, ok := sf[fn]; ok {
@@ -440,6 +440,8 @@ func main() {
 		})
 	}
 
+	lockFacts(facts)
+
 	b, _ := json.MarshalIndent(facts, "", " ")
 	if err := os.WriteFile(*factsPath, b, 0644); err != nil {
 		fmt.Fprintln(os.Stderr, err)
@@ -448,6 +450,80 @@ func main() {
 	if *leanDir != "" {
 		writeLean(*leanDir, facts)
 	}
+}
+
+func strs(v interface{}) []string {
+	switch x := v.(type) {
+	case []string:
+		return x
+	case []interface{}:
+		var out []string
+		for _, e := range x {
+			out = append(out, fmt.Sprint(e))
+		}
+		return out
+	}
+	return nil
+}
+
+func hasPrefixSeq(l []string, pre ...string) bool {
+	if len(l) < len(pre) {
+		return false
+	}
+	for i, p := range pre {
+		if l[i] != p {
+			return false
+		}
+	}
+	return true
+}
+
+func indexOf(l []string, x string) int {
+	for i, e := range l {
+		if e == x {
+			return i
+		}
+	}
+	return -1
+}
+
+func subset(a []string, b ...string) bool {
+	for _, x := range a {
+		if indexOf(b, x) < 0 {
+			return false
+		}
+	}
+	return true
+}
+
+// lockFacts derives the boolean facts the lock model (C13) is parameterised by.
+func lockFacts(facts map[string]interface{}) {
+	br := map[string]bool{}
+	for _, fn := range []string{"EvaluateInsert", "EvaluateUpdate", "EvaluateDelete", "EvaluateSelect"} {
+		sk := strs(facts["skeleton.engine."+fn])
+		br[fn] = hasPrefixSeq(sk, "call:rm.StartTxn", "defer:rm.EndTxn")
+	}
+	facts["lock.brackets"] = br
+	ct := strs(facts["skeleton.storage.RelationService.CreateTable"])
+	inner := strs(facts["skeleton.storage.RelationService.createTable"])
+	facts["lock.createTableLocked"] = hasPrefixSeq(inner, "call:rs.fs.lockShared", "defer:rs.fs.unlockShared") &&
+		indexOf(inner, "call:rs.fs.flushPages") < 0 && indexOf(ct, "call:rs.createTable") >= 0 &&
+		indexOf(ct, "call:rs.createTable") < indexOf(ct, "call:rs.fs.flushPages") && indexOf(ct, "call:rs.createPage") < 0
+	facts["lock.flushExclusive"] = hasPrefixSeq(strs(facts["skeleton.storage.fileStore.flushPages"]), "call:f.lockExclusive", "defer:f.unlockExclusive")
+	st := strs(facts["skeleton.storage.RelationService.StartTxn"])
+	en := strs(facts["skeleton.storage.RelationService.EndTxn"])
+	facts["lock.txnIsSharedLock"] = len(st) == 1 && st[0] == "call:rs.fs.lockShared" && len(en) == 1 && en[0] == "call:rs.fs.unlockShared"
+	facts["lock.pageWritesOnlyInFlush"] = subset(strs(facts["storage.file_writers"]), "fileStore.save", "fileStore.update") &&
+		subset(strs(facts["storage.callers.update"]), "fileStore.flushPages") &&
+		subset(strs(facts["storage.callers.save"]), "CreateDB", "fileStore.flushPages")
+	logInside := true
+	for _, fn := range []string{"EvaluateInsert", "EvaluateUpdate", "EvaluateDelete"} {
+		sk := strs(facts["skeleton.engine."+fn])
+		if indexOf(sk, "call:rm.FlushWALBatch") < 2 {
+			logInside = false
+		}
+	}
+	facts["lock.logAppendInsideBracket"] = logInside
 }
 
 func writeIfChanged(path string, content []byte) {
@@ -524,4 +600,32 @@ func writeLean(dir string, facts map[string]interface{}) {
 	}
 	tb.WriteString("\nend Mkdb.Generated\n")
 	writeIfChanged(filepath.Join(dir, "Tokens.lean"), tb.Bytes())
+
+	// lock facts
+	var lb bytes.Buffer
+	lb.WriteString("/- GENERATED by tools/extract from /repo (engine/*.go, storage/page.go, storage/relation.go) — do not edit. -/\nnamespace Mkdb.Generated\n\n")
+	bl := func(v interface{}) string {
+		if b, ok := v.(bool); ok && b {
+			return "true"
+		}
+		return "false"
+	}
+	lb.WriteString("/-- statement evaluators that open with `rm.StartTxn(); defer rm.EndTxn()` -/\ndef lockBrackets : List (String × Bool) := [\n")
+	br, _ := facts["lock.brackets"].(map[string]bool)
+	names := []string{"EvaluateInsert", "EvaluateUpdate", "EvaluateDelete", "EvaluateSelect"}
+	for i, n := range names {
+		sep := ","
+		if i == len(names)-1 {
+			sep = ""
+		}
+		fmt.Fprintf(&lb, "  (%q, %s)%s\n", n, bl(br[n]), sep)
+	}
+	lb.WriteString("]\n")
+	fmt.Fprintf(&lb, "def lockCreateTableLocked : Bool := %s\n", bl(facts["lock.createTableLocked"]))
+	fmt.Fprintf(&lb, "def lockFlushExclusive : Bool := %s\n", bl(facts["lock.flushExclusive"]))
+	fmt.Fprintf(&lb, "def lockTxnIsSharedLock : Bool := %s\n", bl(facts["lock.txnIsSharedLock"]))
+	fmt.Fprintf(&lb, "def lockPageWritesOnlyInFlush : Bool := %s\n", bl(facts["lock.pageWritesOnlyInFlush"]))
+	fmt.Fprintf(&lb, "def lockLogAppendInsideBracket : Bool := %s\n", bl(facts["lock.logAppendInsideBracket"]))
+	lb.WriteString("\nend Mkdb.Generated\n")
+	writeIfChanged(filepath.Join(dir, "Locks.lean"), lb.Bytes())
 }
